@@ -1,3 +1,5 @@
+//go:build verif
+
 package zz_verif
 
 import (
@@ -50,3 +52,5 @@ func H_C15() {
 	vx.Assert("C15", n <= amount, "at most amount entries")
 	vx.Cover("c15-done")
 }
+
+var _ = register("H_C15", H_C15)
